@@ -126,6 +126,12 @@ type checkerOptions struct {
 // typechecker represents the state of the type checking.
 type typechecker struct {
 
+	// blockDepth is the number of blocks and 'if' statements, nested in the
+	// body of the innermost case, that contain the statement being checked.
+	// labelDepth is the number of labels of the statement being checked.
+	blockDepth int
+	labelDepth int
+
 	// compilation holds the state of a single compilation across multiple
 	// instances of 'typechecker'.
 	compilation *compilation
